@@ -15,6 +15,7 @@ func ruleC16(prog *Program, rep *Report) {
 	ruleLossyKey(prog, rep)
 	ruleFieldLoopBounds(prog, rep, []string{"alt", "oj", "sen"})
 	ruleFreshTarget(prog, rep)
+	ruleFullRange(prog, rep, 6, "alt", "oj", "sen")
 	ruleFloatBits(prog, rep, "!jp")
 	ruleAppendRetain(prog, rep, "alt")
 	ruleEmbedParity(prog, rep) // Marshal reads promoted fields through the plan's offsets
@@ -314,8 +315,8 @@ func ruleFieldLoopBounds(prog *Program, rep *Report, rels []string) {
 			}
 		}
 	}
-	if n < 9 {
-		rep.Errorf("K-bounds found %d field loops (floor 9)", n)
+	if n < 3*len(rels) {
+		rep.Errorf("K-bounds found %d field loops (floor %d)", n, 3*len(rels))
 	}
 }
 
